@@ -138,10 +138,11 @@ def q2J (g : Graph) (t : Option Int) (nb : Option (List Node)) : J :=
       let nb := sl (g.neighbors n t)
       (toString n, J.obj (
         [("nbrs", nb), ("nbrs_iter", nb), ("f_nbrs", nb)] ++
-        (if d then [("succ", nb), ("pred", sl (g.predecessors n t)), ("succ_iter", nb), ("pred_iter", sl (g.predecessors n t))] else []) ++
+        (if d then [("succ", nb), ("pred", sl (g.predecessors n t)), ("succ_iter", nb), ("pred_iter", sl (g.predecessors n t)),
+                    ("indeg1", jn (g.inDegree n t)), ("outdeg1", jn (g.outDegree n t))] else []) ++
         [("hasnode", jb (g.hasNode n t)), ("deg1", jn (g.degree n t)), ("allnbrs", sl (g.allNeighbors n t)), ("nonnbrs", sl (g.nonNeighbors n t))] ++
         (if t.isNone then [("snaps", jints (g.nodeSnapshots n))] else []))))) ++
-      [("99", J.obj [("hasnode", jb (g.hasNode 99 t))])]
+      [("99", J.obj [("hasnode", jb (g.hasNode 99 t)), ("hasnode_unhashable", jn 0)])]
     let pairs : List (String × J) := g.nodeList.flatMap (fun a => g.nodeList.filterMap (fun b =>
       let v := g.numberOfInteractions2 a b t
       if v != 0 then some (toString a ++ "," ++ toString b, jnats [v, v]) else none))
@@ -428,6 +429,27 @@ def exec (s : St) (w : List String) : St × J :=
       match g.timeRespectingPaths (tokN u) ((tokI v).map Int.toNat) (tokI a) (tokI b) with
       | .ok r => pathsJ r
       | .error e => jerr e)
+  | "trps" :: k :: u :: v :: a :: b :: num :: den :: perm => withG s k (fun g =>
+      -- the injected permutation covers indices 0..perm.length-1 only: larger pair sets are skipped on both sides
+      let tooBig := match g.temporalDag (tokN u) ((tokI v).map Int.toNat) (tokI a) (tokI b) with
+        | .ok d => g.hasNode (tokN u) (tokI a) && d.sources.length * d.targets.length > perm.length
+        | .error _ => false
+      if tooBig then .str "skip" else
+      match g.timeRespectingPathsSample (tokN u) ((tokI v).map Int.toNat) (tokI a) (tokI b) (tokN num) (tokN den) (perm.map tokN) with
+      | .ok r => pathsJ r
+      | .error e => jerr e)
+  | "trpsub" :: k :: u :: v :: a :: b :: _ => withG s k (fun g =>
+      -- the real numpy draw: by C13_sample_subset the answer is "subset" (1) whenever the call succeeds
+      match g.timeRespectingPaths (tokN u) ((tokI v).map Int.toNat) (tokI a) (tokI b) with
+      | .ok _ => jn 1
+      | .error e => jerr e)
+  | "occrt" :: t :: name =>
+    -- encode the occurrence (name, t) and a second one ("x", t), decode both as `time_respecting_paths` does
+    let t := (tokI t).getD 0
+    let d1 := occDecode (occName (charsOf name) t)
+    let d2 := occDecode (occName ['x'] t)
+    (s, .arr [.arr (d1.1.map (fun c => jn c.toNat)), .arr (d2.1.map (fun c => jn c.toNat)),
+              match intOf d2.2 with | some z => ji z | none => .null])
   | ["atrp", k, a, b, m] => withG s k (fun g =>
       match g.allTimeRespectingPaths (tokI a) (tokI b) (tokI m) with
       | .ok r => pathsJ r
@@ -445,6 +467,28 @@ def exec (s : St) (w : List String) : St × J :=
     withG s k (fun g =>
       match g.deltaConformity (start.toInt?.getD 0) (delta.toInt?.getD 0) ((alphas.take (tokN n)).map (fun a => tokN a / 100)) (tokN pt) with
       | .ok r => confJ r
+      | .error e => jerr e)
+  | "confp" :: k :: start :: delta :: pt :: psize :: nl :: rest =>
+    -- confp slot start delta ptype profile_size  nl l1..  na a1..  nt (node label value)*
+    withG s k (fun g =>
+      let nl := tokN nl
+      let labels := (rest.take nl).map tokN
+      let rest := rest.drop nl
+      let na := tokN (rest.headD "0")
+      let alphas := ((rest.drop 1).take na).map (fun a => tokN a / 100)
+      let rest := rest.drop (1 + na)
+      let nt := tokN (rest.headD "0")
+      let rec triples : Nat → List String → List (Node × Nat × Nat)
+        | 0, _ => []
+        | m + 1, a :: b :: c :: r => (tokN a, tokN b, tokN c) :: triples m r
+        | _, _ => []
+      let tr := triples nt (rest.drop 1)
+      let tab : LabelTable := fun l n => ((tr.find? (fun e => e.1 == n && e.2.1 == l)).map (·.2.2)).getD 0
+      match g.deltaConformityP tab (start.toInt?.getD 0) (delta.toInt?.getD 0) alphas labels (tokN psize) (tokN pt) with
+      | .ok none => .null
+      | .ok (some l) => .obj (l.map (fun (a, prs) => (alphaKey a, J.obj (prs.map (fun (pr, sc) =>
+          ("_".intercalate (pr.map (fun l => "L" ++ toString l)),
+           .arr ((sortByKey (fun (p : Node × Rat) => [(p.1 : Int)]) sc).map (fun p => .arr [jn p.1, jrat p.2]))))))))
       | .error e => jerr e)
   | "sconf" :: k :: delta :: pt :: n :: alphas =>
     withG s k (fun g =>
